@@ -290,6 +290,19 @@ def run(eng, ctx, with_socket=True):
             okc = leaf[0] == "bin" and leaf[1] == "+" and leaf[2] == ("loop", lid, outv) and any(mentions(leaf[3], lambda s_, t=t: s_ == t) for t in body_terms_)
             ctx.check(okc, "C12.D3", dq, "decoded output extended by the chunk body", expected="out += <the body that was read, possibly decompressed>", found=show(leaf)[:100], **eng.loc(f, info["node"]))
     ctx.instance("commits to the decoded output", ncommit, 1)
+    # ... and nothing that was read is left out: on a way round the loop on which a chunk body was read, the output has grown (a body consumed from
+    # the segment and not added to the output is lost - the carry holds only what an *incomplete* consume leaves)
+    for kind, st in ends:
+        if kind not in ("fall-through", "continue"):
+            continue
+        for conj in st.dnf:
+            bodies = [e for e in consumes if e.seq < st.seq and on_path(e, conj) and e.term[2][2] == "read"]
+            if not bodies:
+                continue
+            same = [leaf for g, leaf in leaves(out_at(st)) if all((c, not p) not in conj for c, p in g) and leaf == ("loop", lid, outv)]
+            if same:
+                ctx.bad("C12.D3", dq, "a chunk body that was read is added to the output", expected="out += <body> on every way round the loop that read one", found="the output is unchanged on a path that read a body: " + guard_text(conj)[-120:], **eng.loc(f, bodies[0].node))
+                break
 
     # ---------------- D4 carry-in
     ctx.rule("C12.D4", "receiver: dechunk(partial ‖ data) in that order; both results stored from one call; decoded part appended to the buffer")
